@@ -426,9 +426,11 @@ def scan_file(rel, toks, aliases, fields_all, fns, nonhash_fields):
                     pat.append(toks[j][1])
                 j += 1
             declared_hash = False
+            annotated = False
             if j < n and toks[j][1] == ":":
                 e = type_span(toks, j + 1)
                 declared_hash = mentions_hash(toks, j + 1, e, aliases)
+                annotated = True
                 j = e
             init_hash = None
             if j < n and toks[j][1] == "=":
@@ -457,8 +459,15 @@ def scan_file(rel, toks, aliases, fields_all, fns, nonhash_fields):
                     scopes[-1].add(simple[0])
                     shadows[-1].discard(simple[0])
             elif plain and toks[i - 1][1] not in ("if", "while"):
-                shadows[-1].add(simple[0])
-                scopes[-1].discard(simple[0])
+                # `let x = <expr mentioning the hash binding x>` (e.g. a fold over plugins that threads the map
+                # through) keeps x a hash binding; any other plain rebinding shadows it
+                rebinds_self = j < n and toks[j][1] == "=" and any(
+                    toks[q] == ("id", simple[0]) for q in range(j + 1, e)) and is_hash(simple[0], False) and not annotated
+                if rebinds_self:
+                    scopes[-1].add(simple[0])
+                else:
+                    shadows[-1].add(simple[0])
+                    scopes[-1].discard(simple[0])
         elif k == "id" and t == "for" and i + 1 < n and toks[i + 1][1] != "<":
             # for PAT in EXPR {
             j = i + 1
@@ -572,12 +581,13 @@ impl Reg {
     pub fn h() { let s: HashSet<u8> = HashSet::new(); let v: Vec<u8> = s.into_iter().collect(); drop(v); } // into_iter
     pub fn i(&self) { let table = vec![1]; for t in table.iter() { drop(t); } }      // shadowed by a Vec: not reported
     pub fn j(&self) { let c = self.table.clone().into_iter().count(); drop(c); }     // through clone()
+    pub fn k(ps: &[u8]) { let m: HashMap<u8, u8> = HashMap::new(); let m = ps.iter().fold(m, |acc, _| acc); for x in m.iter() { drop(x); } } // rebinding keeps it
 }
 #[cfg(test)]
 mod tests { fn t(r: &super::Reg) { for _ in r.table.iter() {} } }                    // test code: ignored
 """
 SELFTEST_EXPECT = {("a", "table", "values"), ("b", "table", "for"), ("c", "tags", "arg:extend"), ("f", "m", "keys"),
-                   ("g", "x", "iter"), ("h", "s", "into_iter"), ("j", "table", "into_iter")}
+                   ("g", "x", "iter"), ("h", "s", "into_iter"), ("j", "table", "into_iter"), ("k", "m", "iter")}
 
 
 def selftest():
